@@ -41,7 +41,7 @@ EXPR_POOL = [
     "|v| match v { 1 => 2, _ => 3 }", "|v| if v > 1 { v } else { 0 }", "join! { a |> b }",
     "try_join! { Some(1) => |v| Some(v), Some(2) ~|> |v| v }", "\"|> => ?? ~\"", "'~'", "b\"<<<\"",
     "|a| a | 1", "|a| |b| a + b", "'l: loop { break 'l 1; }", "vec![1, 2, 3].into_iter()",
-    "x.y.z", "x[1..3].to_vec()", "(0..3)", "[1, 2][0]", "[f, g][1]", "[|v| v + 1, |v| v + 2][0]", "[a, b].len()", "[[1u8; 2]; 2]", "&mut acc", "*ptr", "!flag",
+    "x.y.z", "x[1..3].to_vec()", "(0..3)", "a || b", "a && b || c", "P { x: 1, ..base }", "[1, 2][0]", "[f, g][1]", "[|v| v + 1, |v| v + 2][0]", "[a, b].len()", "[[1u8; 2]; 2]", "&mut acc", "*ptr", "!flag",
     "-1", "a as u64", "|v| v as u8 as u32", "async { 1 }", "async move { x.await }", "|v| async move { v }",
     "unsafe { g() }", "|v| { v }", "Box::new(|v| v) as Box<dyn Fn(u8) -> u8>", "<u8 as Into<u32>>::into",
     "r#\"->\"#", "1.0e3", "0x1f", "core::convert::identity", "|(a, b)| a", "|&v| v", "|v| v.0",
@@ -216,10 +216,9 @@ class Gen:
         b.members = self.chain(length)
         for _ in range(200):
             b.initial = self.rng.choice(self.initial)
-            # `let name = <expr>` is parsed as a Rust `let` expression, whose right-hand side may not be a
-            # bare struct literal (as in `if let`); that is a limitation of the DSL, not a split-point question
-            if named and self.struct_literal(b.initial):
-                continue
+            # (`let name = <expr>` used to be parsed as a Rust `let` expression, whose value may not be a bare struct literal
+            # or a `||` / `&&` expression; such initial values were left out here until fix b5e5525 of /repo — they are
+            # ordinary initial values now)
             if self.fix_q(b.initial, b.members) != b.initial:
                 continue
             break
